@@ -25,9 +25,10 @@ ADSETS = [
     [("-g", "l2=TTGCAGCA...CCGGTTAA"), ("-a", "a1=ACGTACGG")],
     [("-a", "w1=ACGNNCGG")],
     [("-g", "p1=^TTGCAGCA"), ("-a", "s1=ACGTACGG$")],
+    [("-a", "l3=TTGCAGCA...CCGGTTAA"), ("-a", "a1=ACGTACGG")],
 ]
 ADSEQ = {"a1": "ACGTACGG", "g1": "TTGCAGCA", "b1": "GGATCCAA", "a2": "CCGGTTAA", "w1": "ACGNNCGG", "p1": "TTGCAGCA", "s1": "ACGTACGG",
-         "l1;1": "TTGCA", "l1;2": "ACGTACGG", "l2;1": "TTGCAGCA", "l2;2": "CCGGTTAA"}
+         "l1;1": "TTGCA", "l1;2": "ACGTACGG", "l2;1": "TTGCAGCA", "l2;2": "CCGGTTAA", "l3;1": "TTGCAGCA", "l3;2": "CCGGTTAA"}
 RATE = 0.15
 
 
@@ -40,7 +41,9 @@ def corpus():
                  G1[3:] + i, i + "ACGTTCGG" + "AA", i + A1 + A1, G1 + G1 + i + A1, "TTGCA" + i + A1, i + A2 + A1, i + "ACGAACGG",
                  refops.revcomp(i + A1), refops.revcomp(G1 + i + A1), i + A1 + "GGGGGG", "GGGG" + i + A1,
                  # a linked adapter with both parts around a further adapter (later round inside the linked remainder)
-                 G1 + i + A1 + "TT" + A2, G1 + G1 + i + "CA" + A2, "TTGCA" + G1 + i + A1, "TTGCA" + i + A2 + "TC" + A1]
+                 G1 + i + A1 + "TT" + A2, G1 + G1 + i + "CA" + A2, "TTGCA" + G1 + i + A1, "TTGCA" + i + A2 + "TC" + A1,
+                 # only the 3' part of a linked adapter with an optional 5' part, another adapter left of it
+                 i + A1 + "TT" + A2, "CC" + i + A1 + "GT" + A2 + "AAGG"]
     seqs = list(dict.fromkeys(seqs))
     recs = []
     for k, s in enumerate(seqs):
@@ -224,7 +227,7 @@ def run(tier):
     R.assumptions = ["which adapter is applied in which round is C09's business; here each row must be self-consistent and consistent "
                      "with the input read / the previous round's remainder", "field 6 is re-aligned to the named adapter by the C reference"]
     return R.finish(tot.get("evals", 0), tot.get("nontrivial", 0),
-                    "scenarios = 11 sets of pre-adapter modifications (subsets of -u 3, -u -2, -q 10,10, -q 10, --nextseq-trim 10) x 9 adapter "
+                    "scenarios = 11 sets of pre-adapter modifications (subsets of -u 3, -u -2, -q 10,10, -q 10, --nextseq-trim 10) x 10 adapter "
                     "sets (3', 5', anywhere, anchored, wildcard, two linked) x --times {1,2,3} x --revcomp on/off x filters that discard "
                     "reads; corpus of ~100 reads with position-unique qualities; every info-file row is checked; non-trivial = read has a match row",
                     True)
